@@ -232,7 +232,7 @@ Ltac pl_step dig G :=
 Lemma lstrip_by_head p c s : p c = false -> lstrip_by p (c :: s) = c :: s.
 Proof. intros H. simpl. rewrite H. reflexivity. Qed.
 Lemma rstrip_by_last p s c : p c = false -> rstrip_by p (s ++ [c]) = s ++ [c].
-Proof. intros H. unfold rstrip_by. rewrite rev_app_distr. change (rev [c]) with [c]. cbn [app]. rewrite lstrip_by_head by assumption.
+Proof. intros H. rewrite rstrip_by_rev. rewrite rev_app_distr. change (rev [c]) with [c]. cbn [app]. rewrite lstrip_by_head by assumption.
   change (c :: rev s) with ([c] ++ rev s). rewrite rev_app_distr, rev_involutive. reflexivity. Qed.
 
 Lemma printable_not_nl b : is_nl (printable b) = false.
